@@ -67,13 +67,13 @@ func init() {
 			"registration churn of external accounts, chains added / activated / removed, snapshot activations on chains, >30-day time jumps and just-in-time valset updates; after every block every stored snapshot id is re-read. " +
 			"direct cases: generated snapshots (stake-vector classes small-random, equal, almost-equal, whale, near-2^53, above-2^53, one-ulp-below-integer, quorum-boundary; random per-chain account patterns) " +
 			"are projected by the real code (GetValsetByID on a stored copy, PublishSnapshotToAllChains with forcePublish on a fork of a bootstrapped chain). " +
-			"distinct_nontrivial = distinct (stake vector, account pattern) pairs with >= 2 validators in direct cases + distinct (membership, shares, chains) contents of snapshots stored by real builds in hist cases; " +
+			"distinct_nontrivial = distinct (stake vector, account pattern) pairs with >= 2 validators in direct cases + distinct (membership, shares, chains) contents of snapshots stored by end-blocker builds and fork-probe builds in hist cases; " +
 			"evaluations = snapshot-vs-reference comparisons + immutability re-checks + projection comparisons + quorum-gate decisions",
 		Assumptions: []string{
 			"sum of shares < 2^63 (above that transformSnapshotToCompass panics in Int64(); that is C09's subject, nothing is sent)",
 			"remote chains are of type evm; an account on a chain = an external chain info with that chain reference id",
 			"blocks at snapshot-build heights (h%50==0) carry no transactions, so that the staking state at build time equals the state before the block (jailing by the liveness check happens after the build in the same end-blocker)",
-			"on-chain activation of a snapshot is driven through ValsetKeeper.SetSnapshotOnChain, the function the attested UpdateValset / UploadSmartContract flows end in; the evidence-verification part of those flows is not exercised here",
+			"on-chain activation of a snapshot is driven either through the full attested UpdateValset life cycle (world.DeliverMessage: estimates, signatures, relay, evidence, attestation) or directly through ValsetKeeper.SetSnapshotOnChain, the function the attested UpdateValset / UploadSmartContract flows end in",
 			"order of entries in a valset is not part of the property; only the set of (account, power) pairs is compared",
 		},
 		Cases:       cases,
@@ -81,7 +81,7 @@ func init() {
 		MinCounters: []string{"direct_snapshots", "projections_checked", "valset_messages_checked", "gate_withheld",
 			"snapshots_built", "immutability_rechecks", "snapshot_chain_activations", "fork_probe_builds", "hist_valset_messages_checked",
 			"builds_excluding_jailed", "builds_excluding_jailed-still-bonded", "builds_excluding_not-bonded", "builds_excluding_no-account-on-active-chain",
-			"jit_valset_messages"},
+			"jit_valset_messages", "op_deliver_valset_attested", "real_gov_chains_added"},
 		TimeoutS:    1500,
 	})
 }
